@@ -9,7 +9,11 @@ util-size    every (h, w, H, W) of the tier's domain x {maxsize, minsize, resize
              the real one does.  A fixed-stride slice (every K-th case) is run again through the real cv2.resize with
              every interpolation code and must agree with the shim on shape / raising.
 reader-size  the same domain x {maxsize, resize} x {'x', '+'} through the real VideoReader.__init__ (vidgear faked)
-             and the real VideoReader.thread_reader, called synchronously with a stub stream.
+             and the real VideoReader.thread_reader, called synchronously with a stub stream; plus the 'pairs' domain
+             of the aspect-keeping forms: (image side, bound) in 1..n x 1..n (n = 128 / 320), once as the widths and
+             once as the heights, x other image side {1, 16:9, square} x other bound {equal, 2n}, minus what the grid
+             has already - side / bound pairs whose quotient is not exact in floating point are rare among small
+             numbers (a few per cent).
 pixels       every image up to the tier's size with distinct pixel values x {GRAY, BGR, RGB} x {rw, ro} x every chain
              of <= 3 transforms of an alphabet, through the real Util.execute_xforms, against a NumPy reference.
 
@@ -28,6 +32,7 @@ K_REAL = 97          # every K-th size case also goes through the real cv2.resiz
 REAL_PX_CAP = 1 << 24  # do not ask the real cv2.resize for more pixels than this
 
 GRID = {'quick': 24, 'thorough': 48}
+PAIRS = {'quick': 128, 'thorough': 320}   # reader 'pairs' domain: (image side, bound) sweeps 1..n x 1..n (float-rounding pairs are rare: ~1-4 %)
 EXTREME = (1, 2, 3, 7, 64, 1000, 3000)
 
 ACTIONS = ('maxsize', 'minsize', 'resize')
@@ -61,12 +66,12 @@ def size_laws(target, action, form, h, w, H, W, oh, ow):
                 bad.append('not-exact')
 
         else:  # the video reader's aspect-keeping form: the largest aspect-preserving size inside W x H
+            # The LARGEST such size reaches the bound on the binding side (a size that stops a pixel short of it is inside
+            # and has the aspect, but a larger one exists); the derived side is the ideal one to within a pixel of rounding.
             if W * h <= H * w:  # width is the binding side: ideal (W, h*W/w)
-                dw, dh = abs(ow - W) * w, abs(oh * w - h * W)
-                okw, okh = dw <= w, dh <= w
+                okw, okh = ow == W, abs(oh * w - h * W) <= w
             else:               # ideal (w*H/h, H)
-                dw, dh = abs(ow * h - w * H), abs(oh - H) * h
-                okw, okh = dw <= h, dh <= h
+                okw, okh = abs(ow * h - w * H) <= h, oh == H
 
             if ow > W or oh > H or not (okw and okh):  # one law: outside the bound or not that size
                 bad.append('not-largest-inside')
@@ -366,16 +371,13 @@ def _util_size_item(item):
     return acc.out()
 
 
-def _reader_size_item(item):
-    tier, key, opt, form, W, base = item
-    dims = _dims(key, tier)
-    acc  = _Acc()
-    hw   = [(h, w) for h in dims for w in dims]
+def _reader_sweep(acc, opt, form, W, Hs, hw, idx):
+    """Every image size of `hw` through a real VideoReader(opt='W form H') for every H of `Hs`; -> next case index."""
+
     imgs = [np.broadcast_to(_ZERO, s) for s in hw]
     m    = _mods()
-    idx  = base
 
-    for H in dims:
+    for H in Hs:
         m.shim.last = None
         outs        = _reader_run(opt, f'{W}{form}{H}', imgs, False)
 
@@ -415,6 +417,46 @@ def _reader_size_item(item):
                         acc.real += 1
 
             idx += 1
+
+    return idx
+
+
+def _reader_size_item(item):
+    tier, key, opt, form, W, base = item
+    dims = _dims(key, tier)
+    acc  = _Acc()
+
+    _reader_sweep(acc, opt, form, W, dims, [(h, w) for h in dims for w in dims], base)
+
+    return acc.out()
+
+
+def _pairs_domain(tier, keys):
+    """The 'pairs' domain of the reader's aspect-keeping forms: one side pair (image side a, bound A) sweeps 1..n x 1..n
+    completely, once as the widths and once as the heights; the other image side is 1 (a line), the 16:9 partner of a
+    (rounded up) or a (square), the other bound is A (square) or 2n (far away).  Tuples that the grid / extreme domains
+    enumerate already are left out, every remaining tuple occurs once.  -> {(W, H): sorted [(h, w), ...]}"""
+
+    n     = PAIRS[tier]
+    have  = [set(_dims(key, tier)) for key in keys]
+    dom   = {}
+
+    for a in range(1, n + 1):
+        for A in range(1, n + 1):
+            for b in {1, (9 * a + 15) // 16, a}:
+                for B in (A, 2 * n):
+                    for h, w, H, W in ((b, a, B, A), (a, b, A, B)):
+                        if not any(d.issuperset((h, w, H, W)) for d in have):
+                            dom.setdefault((W, H), set()).add((h, w))
+
+    return {WH: sorted(hw) for WH, hw in sorted(dom.items())}
+
+
+def _reader_pairs_item(item):
+    opt, W, H, hw, base = item
+    acc = _Acc()
+
+    _reader_sweep(acc, opt, 'x', W, [H], hw, base)
 
     return acc.out()
 
@@ -694,7 +736,9 @@ def run(rep):
 
     rep.set('rule', "size parts: one case = (target, action, form 'x'|'+', image h, w, bound H, W), every combination of "
         "the domain enumerated; non-trivial = the real size code decided to resize (cv2.resize requested or the reader "
-        "changed the size / failed). pixels: one case = (image h x w, format, rw|ro, chain of <= 3 transforms), all "
+        "changed the size / failed); the reader's aspect-keeping forms additionally over the 'pairs' domain (one image side / "
+        "bound pair swept completely over 1..n x 1..n as widths and as heights x 3 other image sides x 2 other bounds, tuples "
+        "of the grid left out). pixels: one case = (image h x w, format, rw|ro, chain of <= 3 transforms), all "
         "enumerated; non-trivial = result differs from the input image. Distinct by construction (each tuple once).")
     rep.set('distinct_nontrivial', 0)
     rep.assumption('cv2.resize is stubbed (module-level name cv2 of filters/util.py and filters/video_in.py rebound to a shim '
@@ -703,7 +747,8 @@ def run(rep):
     rep.assumption('VideoReader is built by its real __init__ with vidgear.gears.VideoGear replaced by an in-memory stream; '
         'thread_reader() is called synchronously')
     rep.assumption("'within one pixel of rounding' is read as: some scale s has |ow - s*w| <= 1 and |oh - s*h| <= 1; the "
-        "reader's aspect-keeping resize must be within one pixel (per side) of the largest aspect-preserving size inside W x H")
+        "reader's aspect-keeping resize must be the largest aspect-preserving size inside W x H: the binding side equals its "
+        "bound exactly, the derived side is within one pixel of the ideal value")
     rep.assumption('box: a changed pixel must touch the closed relative rectangle, a pixel wholly inside it must be painted '
         '(accepts both inclusive and exclusive end-pixel conventions); on GRAY frames only a grey colour is value-checked')
     rep.assumption('transform parameters are positive integers (a 0 bound is not a valid size)')
@@ -740,7 +785,19 @@ def run(rep):
 
             rep.part('reader-size', **{f'domain_{key}_side': len(dims), f'domain_{key}_product': len(dims) ** 4 * 4})
 
+        pairs  = _pairs_domain(tier, keys)
+        pitems = []
+
+        for opt in READER_OPTS:
+            for (W, H), hw in pairs.items():
+                pitems.append((opt, W, H, hw, base))
+                base += len(hw)
+
+        rep.part('reader-size', domain_pairs_side=PAIRS[tier], domain_pairs_bounds=len(pairs),
+            domain_pairs_cases=sum(len(hw) for hw in pairs.values()) * len(READER_OPTS))
+
         _merge(rep, 'reader-size', common.pmap(_reader_size_item, items), viol)
+        _merge(rep, 'reader-size', common.pmap(_reader_pairs_item, pitems, 4), viol)
 
     if 'pixels'.find(only) >= 0:
         mh, mw = MAXIMG[tier]
